@@ -1,4 +1,5 @@
 import HC.Worker.Invariants
+import HC.Extracted.LifespanSend
 /-!
 # C14 — Lifespan ordering, failure handling, state isolation
 
@@ -18,6 +19,42 @@ open HC HC.Worker
 
 /-- the two worker classes as the code is now (the flags are re-measured on every run of the check) -/
 def Current (rt : Runtime) : Prop := rt = Runtime.asyncio ∨ rt = Runtime.trio
+
+/-! ### the model's send alphabet is the source's dispatch
+
+The model's lifespan actions `sendStartupComplete … sendUnknown` stand for *every* message of the respective type, whatever
+else it carries or lacks (`{"type": "lifespan.startup.failed"}` without the optional `message` key included).  That this is
+what `Lifespan.asgi_send` does is re-decided against the source: the extractor reads the `if/elif` chain of both workers
+(`HC/Extracted/LifespanSend.lean`), including whether the arguments of `LifespanFailureError(…)` can be evaluated for every
+message of that type (`argsTotal`: constants and `message.get(key, default)` only - a subscript `message["message"]` would
+raise `KeyError`, i.e. an *unsupported* application instead of a failed start-up) and whether the event is set before the raise
+(the measured runtime flag `failedSetsEvent`, here read off the source as well). -/
+
+open HC.Extracted.LifespanSend in
+/-- what the model does with a send action, in the extractor's vocabulary -/
+def effectOfAct (rt : Runtime) : LAct → Option Effect
+  | .sendStartupComplete => some .setStartup
+  | .sendShutdownComplete => some .setShutdown
+  -- `startup := l.startup || rt.failedSetsEvent, pending := some (.failure .startup)`, for every payload
+  | .sendStartupFailed => some (.raiseFailure "startup" rt.failedSetsEvent true)
+  | .sendShutdownFailed => some (.raiseFailure "shutdown" rt.failedSetsEvent true)
+  | .sendUnknown => some .raiseUnexpected                           -- `pending := some .other`
+  | _ => none
+
+open HC.Extracted.LifespanSend in
+def modelSendTable (rt : Runtime) : List (String × Effect) :=
+  LAct.sendTypes.filterMap (fun p => (effectOfAct rt p.2).map (fun e => (p.1, e)))
+
+open HC.Extracted.LifespanSend in
+/-- **`asgi_send` of both workers is the model's send alphabet**: the same message types in the same order with the same
+    effect, `lifespan.startup.failed` / `lifespan.shutdown.failed` raise `LifespanFailureError` of the right stage for every
+    message of that type (no optional key is required) without setting the event first (`failedSetsEvent` of the current
+    runtimes), anything else raises `UnexpectedMessageError` -/
+theorem asgi_send_dispatch :
+    asyncioSendTable = modelSendTable Runtime.asyncio ∧ asyncioSendElse = .raiseUnexpected ∧
+    trioSendTable = modelSendTable Runtime.trio ∧ trioSendElse = .raiseUnexpected ∧
+    effectOfAct Runtime.asyncio (LAct.ofSendType "lifespan.bogus") = some .raiseUnexpected := by
+  decide
 
 /-- something is being, or has been, served -/
 def Serving (s : W) : Prop := s.listening = true ∨ s.conns ≠ [] ∨ s.g.scopes > 0 ∨ s.g.accepts > 0
